@@ -85,6 +85,7 @@ def history_item(args):
         chk_pick(o, out)
         for pl in out:
             pl["history_first"] = shapes.raw_json(lv1, names)
+            pl["signature"] = dict(pl["signature"], history="same object")
     ex.explore(path)
     STATS.sample({"history": [shapes.raw_json(lv1, names), shapes.raw_json(lv2, names)], "same PickAPerm object": True})
     return out
